@@ -83,3 +83,14 @@ package chpool
 //@ loop 0 (rangeindex)
 //@   modifies all(p.pool)
 //@   invariant -1 <= rangeindex && rangeindex < len(resources)
+
+// ---------------------------------------------------------------------------
+// C12: the background health checker is registered with the pool's wait group by the goroutine
+// that starts it, before the `go` statement - Pool.Close waits on that group before it closes the
+// underlying pool, so an Add made by the checker itself could race with that Wait.
+//@ contract newPool(ctx, opt, dial) (p, err) props(C12)
+//@   requires ctx != nil
+//@   modifies all(ctx)
+//@   maypanic
+//@ callsite (*Pool).backgroundHealthCheck
+//@   assert calls("sync.(*WaitGroup).Add") == 1 {health-checker-registered-before-it-is-started}
